@@ -5,6 +5,7 @@ go 1.19
 require (
 	github.com/docker/go-units v0.4.0
 	github.com/frostschutz/go-fibmap v0.0.0-20160825162329-b32c231bfe6a
+	github.com/gorilla/mux v1.7.4
 	github.com/openebs/jiva v0.0.0
 	github.com/openebs/sparse-tools v1.1.0
 	github.com/sirupsen/logrus v1.7.0
@@ -19,7 +20,6 @@ require (
 	github.com/google/uuid v1.2.0 // indirect
 	github.com/gorilla/context v1.1.1 // indirect
 	github.com/gorilla/handlers v1.4.2 // indirect
-	github.com/gorilla/mux v1.7.4 // indirect
 	github.com/gorilla/websocket v1.4.1 // indirect
 	github.com/gostor/gotgt v0.2.1-0.20210817044456-e5d5366e2b59 // indirect
 	github.com/matttproud/golang_protobuf_extensions v1.0.1 // indirect
